@@ -204,11 +204,13 @@ def handleExec (toks : List String) : String :=
         let claim := match r with | .done _ _ => (if t.inClaim then "in" else "out") | _ => "out"
         -- what the generated code is modelled to compute (EngineSem), in the harness' engine format
         let forced (e : String) : Bool := ((look (kvOf toks) "force").getD "").splitOn "," |>.contains e
+        -- `norun=1`: the harness only compiles; nothing is executed by the engine models either
+        let norun : Bool := (look (kvOf toks) "norun").isSome
         let eng (name : String) (comp : EngineSem.Compile) (res : Unit → Interp.Result) : String :=
           match comp with
           | .err => "compile-err"
           | .panic => "compile-panic"
-          | .ok => match (match r with | .done _ _ => true | _ => forced name) with
+          | .ok => match (match r with | .done _ _ => !norun | _ => !norun && forced name) with
             | true => (match res () with
               | .done r0 s =>
                 let d := detail c s
@@ -235,7 +237,7 @@ def handleExec (toks : List String) : String :=
           | .ok (code, locs, ex) => if JitAst.validate prog haddr um ud code { pcLocs := locs, exitLoc := ex } then "1" else "0"
           | .error _ => "-"
         let x86sem := match compiled, r with
-          | .ok code, .done _ _ => x86Sem c code hfn (mkMem c)
+          | .ok code, .done _ _ => if norun then "compiled" else x86Sem c code hfn (mkMem c)
           | .ok _, _ => "compiled"
           | .error .err, _ => "compile-err"
           | .error .panic, _ => "compile-panic"
